@@ -601,6 +601,58 @@ def reach_wireless(from_a: bool, tog: int, warm: bool):
         check(not got, lambda: f"with the path down ({t}) a payload was still handed to the destination's software")
 
 
+METRIC_PAIRS = [(1.8, 1.2), (2.0, 1.0), (0.5, 0.25), (1.0, 1.0), (3.0, 2.999), (0.0, 0.9)]
+
+
+def routes_from_config(mi: int, swap: bool, plen_i: int, with_default: bool):
+    """Route tables declared in a scenario: a router built by Router.from_config from a config dict whose `routes` give
+    two equal-prefix routes with solver-chosen (possibly fractional) metrics in either order, a covering shorter prefix
+    and optionally a default route: find_best_route returns the longest-prefix route of lowest declared metric (first
+    declared on a tie), and the declared metrics are the ones in the table."""
+    from ipaddress import IPv4Address
+
+    from primaite.simulator.network.hardware.nodes.network.router import Router
+
+    assume(all_of(rng(mi, 0, len(METRIC_PAIRS) - 1), rng(plen_i, 0, 1)))
+    m1, m2 = pick(METRIC_PAIRS, mi)
+    if swap:
+        m1, m2 = m2, m1
+    mask = pick(["255.255.255.0", "255.255.255.192"], plen_i)
+    with concrete():
+        quiet()
+        routes = [
+            {"address": "172.16.0.0", "subnet_mask": "255.255.0.0", "next_hop_ip_address": "10.0.0.9", "metric": 0.1},
+            {"address": "172.16.5.0", "subnet_mask": mask, "next_hop_ip_address": "10.0.0.2", "metric": m1},
+            {"address": "172.16.5.0", "subnet_mask": mask, "next_hop_ip_address": "10.0.0.3", "metric": m2},
+        ]
+        cfg = {
+            "type": "router", "hostname": "r_cfg", "num_ports": 3, "start_up_duration": 0,
+            "ports": {1: {"ip_address": "10.0.0.1", "subnet_mask": "255.255.255.0"}},
+            "acl": {10: {"action": "PERMIT"}},
+            "routes": routes,
+        }
+        if with_default:
+            cfg["default_route"] = {"next_hop_ip_address": "10.0.0.7"}
+        try:
+            r = Router.from_config(config=cfg)
+        except Exception as e:
+            fail(f"Router.from_config raised {type(e).__name__}: {str(e)[:200]}")
+        got = sorted((str(x.address), str(x.subnet_mask), str(x.next_hop_ip_address), float(x.metric)) for x in r.route_table.routes)
+        want = sorted((x["address"], x["subnet_mask"], x["next_hop_ip_address"], float(x["metric"])) for x in routes)
+        best = r.route_table.find_best_route(IPv4Address("172.16.5.9"))
+        other = r.route_table.find_best_route(IPv4Address("172.16.99.1"))
+        nowhere = r.route_table.find_best_route(IPv4Address("8.8.8.8"))
+    cover("cfg_routes")
+    check(got == want, lambda: f"route table built from the scenario {got} differs from the declared routes {want}")
+    exp_hop = "10.0.0.2" if m1 <= m2 else "10.0.0.3"
+    check(best is not None and str(best.next_hop_ip_address) == exp_hop, lambda: f"declared metrics {m1} (via .2, first) and {m2} (via .3): best route goes via {best.next_hop_ip_address if best else None}, expected {exp_hop}")
+    check(other is not None and str(other.next_hop_ip_address) == "10.0.0.9", "destination covered only by the /16 is not routed via the /16")
+    if with_default:
+        check(nowhere is not None and str(nowhere.next_hop_ip_address) == "10.0.0.7", "uncovered destination does not use the default route")
+    else:
+        check(nowhere is None, "uncovered destination got a route although no default route is declared")
+
+
 def _two_router_lan():
     """One LAN (192.168.1.0/24, a switch) with TWO routers on it: r1 is the hosts' default gateway and routes the remote
     subnet 192.168.2.0/24 via r2 (192.168.1.254), which is attached to it directly. Replies from the remote subnet come
@@ -781,6 +833,13 @@ HARNESSES = {
         "thorough": [{"fixed": {"warm": w}, "timeout": 600} for w in (False, True)],
         "cover": ["wl_up", "wl_down"],
         "bounds": "the shipped wireless-WAN scenario (two wireless routers, one host behind each), both directions, 9 toggles (either access point down, either router off, a wired port down, ACL deny, access points on different frequencies, destination off), cold/warm ARP",
+    },
+    "routes_from_config": {
+        "fn": routes_from_config,
+        "quick": [{"fixed": {}, "timeout": 200}],
+        "thorough": [{"fixed": {}, "timeout": 400}],
+        "cover": ["cfg_routes"],
+        "bounds": "a router built by Router.from_config: 6 metric pairs (fractional, equal, near-equal, zero) in either order for two equal-prefix routes (/24 or /26) under a covering /16, with/without default route",
     },
     "gateway_lan": {
         "fn": gateway_lan,
